@@ -606,8 +606,8 @@ void eval_pending(World &W, const GPending &pd)
 	W.ctx.count("group_consequence_audits");
 	if (pd.kind == 1) {
 		GInfo *me = ginfo_of(W, pd.pref);
-		if (!me || me->status != RTR_MGR_ESTABLISHED)
-			return; // lost that status again meanwhile: nothing to demand any more
+		if (!me || me->status != RTR_MGR_ESTABLISHED || me->est_epoch != pd.epoch)
+			return; // lost that status again meanwhile (a later establishment has its own consequences): nothing to demand any more
 		for (auto &g : W.ginfo) {
 			// (a group the operator is removing right now is being shut down by rtr_mgr_remove_group itself; what that
 			// leaves behind is checked when it returns)
@@ -690,6 +690,7 @@ void group_oracle_on_status(World &W, const struct rtr_mgr_group *group, int sta
 	int prev = g->status;
 	g->status = status;
 	if (status == RTR_MGR_ESTABLISHED && prev != RTR_MGR_ESTABLISHED) {
+		g->est_epoch++;
 		W.ctx.count("probe_group_established");
 		for (int s : g->socks) {
 			const Belief &b = W.belief[(size_t)s];
@@ -698,7 +699,11 @@ void group_oracle_on_status(World &W, const struct rtr_mgr_group *group, int sta
 					   "group %d is reported ESTABLISHED although its socket %d holds no synchronised data", g->pref, s);
 		}
 		if (si >= 0)
-			W.gpend.push_back({1, sim_self(), si, g->pref, 0});
+			{
+				GPending pd{1, sim_self(), si, g->pref, 0};
+				pd.epoch = g->est_epoch;
+				W.gpend.push_back(pd);
+			}
 	}
 	if (status == RTR_MGR_CLOSED) {
 		// its socket threads are gone: they cannot complete what their last reports implied
